@@ -117,8 +117,9 @@ def twoNodesTwoEdges : St := applyAll St.empty [.createNode 0 0, .createNode 0 0
 
     Hypothesis on the operations (`Op.adm`): only `create_edge` and `delete_edge`, and a
     `delete_edge(e)` names an id handed out BEFORE the concurrent phase (`e ≤ s0.ne`; the edge need
-    not exist).  Outside: node deletion and edge update (the two remaining witnesses below), and
-    deleting an edge whose `create_edge` has not returned yet (the id can only be guessed). -/
+    not exist).  Outside: node deletion and the update of an edge being deleted (the two remaining
+    witnesses below), and deleting an edge whose `create_edge` has not returned yet (the id can only
+    be guessed).  `quiescent_wf_partial` adds `update_node` and `update_edge`. -/
 theorem adjacency_rmw_atomic (s0 : St) (h : Inv s0) (programs : List (List Op))
     (hadm : ∀ ops ∈ programs, ∀ op ∈ ops, op.adm s0.ne) : QuiescentWF s0 programs :=
   quiescentWF_of_adm s0 h programs hadm
@@ -200,24 +201,60 @@ theorem delete_node_parallel_path_lost_removal_witness :
     decide
   rw [hn] at hr; exact absurd hr (by simp)
 
+/-! ### concurrent: everything but node creation / deletion -/
+
+/-- PARTIAL form of `QuiescentWF`: the largest set of operations for which it holds without a
+    condition on footprints.  Any number of threads, each running any list of `create_edge`,
+    `delete_edge`, `update_node` and `update_edge` operations from any reachable store: for EVERY
+    interleaving the list locks allow, once all threads have finished the store is well-formed.
+    Conditions (`Admissible`): a `delete_edge(e)` / `update_edge(e)` names an id handed out before the
+    concurrent phase, and no `update_edge(e)` runs in a phase in which some thread has a
+    `delete_edge(e)` (anywhere in its list).
+    What is missing w.r.t. the full statement, which is false:
+    * `delete_node` next to anything that touches the node or its edges
+      (`create_edge_delete_node_race_witness`),
+    * `update_edge(e)` next to `delete_edge(e)` (`update_edge_delete_edge_race_witness`),
+    * `create_node` (its two list puts take no lock; harmless as long as nobody uses the new id
+      before `create_node` returns) and operations on ids handed out DURING the phase, which a client
+      can only guess.  For operation sets with disjoint footprints these are covered by
+      `quiescent_wf_disjoint_partial`. -/
+theorem quiescent_wf_partial (s0 : St) (h : Inv s0) (programs : List (List Op))
+    (hadm : ∀ ops ∈ programs, ∀ op ∈ ops, Admissible s0 programs op) : QuiescentWF s0 programs :=
+  quiescentWF_of_admissible s0 h programs hadm
+
+/-- non-vacuity: updates of edge 1 and node 1 next to the deletion of edge 2 and new edges on the
+    same hub -/
+example : QuiescentWF twoNodesTwoEdges
+    [[.updateEdge 1 9, .createEdge 1 2 false 0 0], [.deleteEdge 2, .updateNode 1 none 3], [.createEdge 2 1 true 1 1]] :=
+  quiescent_wf_partial _ (wf_preserved _ _ inv_empty).1 _ (by
+    intro ops hops op hop
+    simp at hops
+    rcases hops with rfl | rfl | rfl <;> simp at hop
+    · rcases hop with rfl | rfl
+      · refine ⟨by decide, ?_⟩; simp
+      · trivial
+    · rcases hop with rfl | rfl
+      · show 2 ≤ twoNodesTwoEdges.ne; decide
+      · trivial
+    · subst hop; trivial)
+
 /-! ### concurrent: operation sets with pairwise disjoint footprints (any operations) -/
 
-/-- PARTIAL form of `QuiescentWF` for operations OUTSIDE `adjacency_rmw_atomic` (node creation and
-    deletion, updates).  Threads are programs (lists of atomic steps) with a footprint `F` (keys read
-    or written) and a write footprint `W ⊆ F`; if the write footprint of every thread is disjoint
-    from the footprint of every other thread (`Disjoint`), each thread alone stays inside its
-    footprint from the initial store (`Stays`) and alone preserves `WF` on every store agreeing with
-    the initial one on its footprint, then EVERY interleaving of the atomic steps that lets all
-    threads finish ends in a well-formed store — in fact in the store of the serial run
+/-- PARTIAL form of `QuiescentWF` for operations OUTSIDE `quiescent_wf_partial` (node creation and
+    deletion, updates of edges being deleted).  Threads are programs (lists of atomic steps) with a
+    footprint `F` (keys read or written) and a write footprint `W ⊆ F`; if the write footprint of every
+    thread is disjoint from the footprint of every other thread (`Disjoint`), each thread alone stays
+    inside its footprint from the initial store (`Stays`) and alone preserves `WF` on every store
+    agreeing with the initial one on its footprint, then EVERY interleaving of the atomic steps that
+    lets all threads finish ends in a well-formed store — in fact in the store of the serial run
     (`disjoint_interleaving_serial`).  `runP` ignores the list locks, so it has every interleaving
     of the locked code and more.
     What is missing w.r.t. the full statement (which is false, see the two witnesses above):
-    operations whose footprints overlap and that are not `create_edge` / `delete_edge` (those are
-    covered without any footprint condition by `adjacency_rmw_atomic`); the id allocation is outside
-    the programs (ids are pre-assigned, the engine's atomic counters hand out distinct fresh ids);
-    one operation per thread. Footprint facts are proved for `create_edge` and `delete_edge`
-    (`createEdgeTh_ok`, `deleteEdgeTh_ok`). -/
-theorem quiescent_wf_partial (ts : List Th) (m0 : KV) (a b : Nat) (hwf : WF m0)
+    operations whose footprints overlap and that are not covered by `quiescent_wf_partial`; the id
+    allocation is outside the programs (ids are pre-assigned, the engine's atomic counters hand out
+    distinct fresh ids); one operation per thread. Footprint facts are proved for `create_edge` and
+    `delete_edge` (`createEdgeTh_ok`, `deleteEdgeTh_ok`). -/
+theorem quiescent_wf_disjoint_partial (ts : List Th) (m0 : KV) (a b : Nat) (hwf : WF m0)
     (hst : ∀ (i : Nat) (t : Th), ts[i]? = some t → Stays t.F t.W t.p m0)
     (hsub : SubFW ts) (hdisj : Disjoint ts)
     (hpres : ∀ (i : Nat) (t : Th), ts[i]? = some t →
@@ -245,7 +282,7 @@ theorem disjoint_create_edges_wf (sched : List Nat)
     | 0, h => simp at h; exact Or.inl ⟨rfl, h.symm⟩
     | 1, h => simp at h; exact Or.inr ⟨rfl, h.symm⟩
     | n + 2, h => simp at h
-  apply quiescent_wf_partial _ fourNodes.kv fourNodes.nn fourNodes.ne (wf_of_any_history _)
+  apply quiescent_wf_disjoint_partial _ fourNodes.kv fourNodes.nn fourNodes.ne (wf_of_any_history _)
   · intro i t h; rcases hcases i t h with ⟨_, rfl⟩ | ⟨_, rfl⟩
     · exact h1.1 _
     · exact h2.1 _
